@@ -557,3 +557,8 @@ def select_for_mode(case, mode, tier):
     if not in_scope(case) and mode == "bounds" and case["op"] == "journal_kernels":
         return True
     return len(o) + len(n) <= 12 and case.get("_n", 0) % (7 if case["op"] == "journal_table" else 2) == 0
+
+
+# the translated kernels of this property (Gen/Kernels.lean) are run against the real compiled kernels as well
+from checks.harness import genkernels  # noqa: E402
+genkernels.install(globals(), "C17")
